@@ -9,6 +9,7 @@ import Driver.Filter
 import Driver.Dav
 import Driver.AuthGate
 import Driver.Sync
+import Driver.Cache
 open Lean
 
 def dispatch (j : Json) : Json :=
@@ -21,6 +22,7 @@ def dispatch (j : Json) : Json :=
   | "filter" => Driver.handleFilter j
   | "authgate" => Driver.handleAuthGate j
   | "sync" => Driver.handleSync j
+  | "cache" => Driver.handleCache j
   | "ping" => Driver.obj [("r", Json.str "pong")]
   | _ => Driver.obj [("error", Json.str "bad-model")]
 
